@@ -28,9 +28,16 @@ def coq_tree(t):
     return f"(Spa {c.b(t[1])} {'None' if t[2] is None else f'(Some {t[2]})'} {ch})"
 
 
+STYLE = [0]     # 1: containers are a user-defined subclass of spa.Network and seeds are NumPy integers (both are legitimate ways
+#                      to write the same model: nothing about vocabulary sharing or reproducibility may depend on them)
+_SUB = []
+
+
 def build(t, out, seed_shift=0):
     import nengo
     import nengo_spa as spa
+    if not _SUB:
+        _SUB.append(type("UserNetwork", (spa.Network,), {}))
     if t[0] == "M":
         st = spa.State(t[1])
         out.append(st.vocab)
@@ -43,8 +50,8 @@ def build(t, out, seed_shift=0):
         if t[1]:
             kw["vocabs"] = [spa.Vocabulary(16)]
         if t[2] is not None:
-            kw["seed"] = t[2] + seed_shift
-        with spa.Network(**kw):
+            kw["seed"] = t[2] + seed_shift if STYLE[0] == 0 else np.int64(t[2] + seed_shift)
+        with (spa.Network if STYLE[0] == 0 else _SUB[0])(**kw):
             for x in t[3]:
                 build(x, out, seed_shift)
 
@@ -119,6 +126,7 @@ def run(rep, tier, rng):
     for i, t1 in enumerate(trees):
         t2 = trees[(i * 7 + 3) % len(trees)]
         o1, o2 = [], []
+        STYLE[0] = i % 2
         try:
             build(t1, o1)
             build(t2, o2)
@@ -129,16 +137,17 @@ def run(rep, tier, rng):
         lab = lambda v: ids.setdefault(id(v), len(ids))  # noqa
         l1, l2 = [lab(v) for v in o1], [lab(v) for v in o2]
         exprs.append(f"check_models {coq_tree(t1)} {coq_tree(t2)} {c.lst([str(x) for x in l1])} {c.lst([str(x) for x in l2])}")
-        cases.append((t1, t2, l1, l2))
+        cases.append((t1, t2, l1, l2, i % 2))
         rep.case((repr(t1), repr(t2)), nontrivial=count_modules(t1) > 1,
                  sample={"tree": repr(t1), "vocabulary_labels": l1} if 3 <= count_modules(t1) <= 4 and len(repr(t1)) < 120 else None)
         rep.count("tree_pair")
         rep.count(f"modules_{min(count_modules(t1), 6)}")
     verdicts = c.coq_eval("C18", "cases", IMPORTS, exprs, shard=200)
-    for ok, (t1, t2, l1, l2) in zip(verdicts, cases):
+    for ok, (t1, t2, l1, l2, sty) in zip(verdicts, cases):
         if not ok:
             rep.violation(f"modules of {t1!r} (then {t2!r}) are partitioned into vocabularies {l1} / {l2}, not one per dimensionality per model",
-                          {"case": {"tree1": repr(t1), "tree2": repr(t2)}, "observed": {"labels1": l1, "labels2": l2},
+                          {"case": {"tree1": repr(t1), "tree2": repr(t2), "containers": "user-defined subclass of spa.Network, NumPy integer seeds" if sty else "spa.Network, int seeds"},
+                           "observed": {"labels1": l1, "labels2": l2},
                            "python": "# see harness/props/c18.py build(): M = spa.State(d), P = nengo.Network, S = spa.Network(explicit vocabs, seed)\n"
                                      "assert False, 'vocabulary identity partition differs from one-vocabulary-per-dimensionality-per-model'\n",
                            "expected": "Model/NetworkCtx.v build_model (proved: one map per model, fresh per model)"})
@@ -153,8 +162,9 @@ def run(rep, tier, rng):
         + [t for t in seeded_trees if ", 0, " in repr(t)][:n_each // 2]
     rtrees += [("P", [("S", False, 7, [("M", 16), ("P", [("M", 32)])]), ("M", 16)]), ("P", [("P", [("S", False, 11, [("M", 16)])])])]
     qs, qmeta = [], []
-    for t in rtrees:
+    for ti_, t in enumerate(rtrees):
         runs = []
+        STYLE[0] = ti_ % 2
         for shift in (0, 0, 1000):
             out = []
             build(t, out, shift)
@@ -167,17 +177,18 @@ def run(rep, tier, rng):
             runs.append(vecs)
         for i in range(len(runs[0])):
             qs.append(f"occ_seeded_at {coq_tree(t)} {i}")
-            qmeta.append((t, i, runs[0][i], runs[1][i], runs[2][i]))
+            qmeta.append((t, i, runs[0][i], runs[1][i], runs[2][i], ti_ % 2))
+    STYLE[0] = 0
     seeded = c.coq_eval("C18", "seeded", IMPORTS, qs, shard=400)
-    for sd, (t, i, a, b_, c3) in zip(seeded, qmeta):
+    for sd, (t, i, a, b_, c3, sty) in zip(seeded, qmeta):
         if not sd or a is None:
             rep.count("repro_not_claimed_unseeded_or_explicit")
             continue
         rep.case(("repro", repr(t), i))
         rep.count("repro_checked")
         if b_ is None or not np.array_equal(a, b_):
-            rep.violation(f"same script and seed gave different pointers for module {i} of {t!r}",
-                          {"case": {"tree": repr(t), "module": i}, "python": "assert False, 'pointers differ between two builds with the same seed'\n"})
+            rep.violation(f"same script and seed gave different pointers for module {i} of {t!r}" + (" (spa.Network subclass containers, NumPy integer seeds)" if sty else ""),
+                          {"case": {"tree": repr(t), "module": i, "style": sty}, "python": "assert False, 'pointers differ between two builds with the same seed'\n"})
         if c3 is not None and np.array_equal(a, c3):
             rep.violation(f"a different seed gave identical pointers for module {i} of {t!r}",
                           {"case": {"tree": repr(t), "module": i}})
